@@ -170,7 +170,7 @@ class World:
         self.conn.set_state(self.conn.OPEN)
         self.conn._io.write_to_socket = self._on_write
         self.conn._channel0.max_allowed_channels = 16
-        self.ch = Channel(1, self.conn, 2)
+        self.ch = Channel(1, self.conn, 0.02)   # answers are immediate; only the scripted failure of Channel.close waits
         self.ch.set_state(self.ch.OPEN)
         self.conn._channels[1] = self.ch
 
@@ -528,7 +528,7 @@ def check(rep):
             if not op.checkable(p):
                 continue
             for bad in WRONG[op.doc[p]]:
-                for sc in (scenarios if (thorough or p in tx) else ['ok']):
+                for sc in scenarios:
                     ses.one(op, dict(base_args(op), **{p: bad}), sc, tx, 'wrong-single', bad=[p])
             for good in right_pool(op, p):
                 for sc in (scenarios if thorough else ['ok']):
@@ -539,7 +539,7 @@ def check(rep):
             ses.one(op, dict(base_args(op), message_impl=T('class', 'int')), 'ok', tx, 'opaque', opaque_ok=False)
             ses.one(op, dict(base_args(op), message_impl=T('class', 'Message')), 'ok', tx, 'opaque')
     # --- random assignments -----------------------------------------------------------------------
-    n_random = 1500 if not thorough else 40000
+    n_random = 6000 if not thorough else 150000
     for _ in range(n_random):
         op = rng.choice(ops)
         tx = tx_of[op.name]
